@@ -23,6 +23,12 @@ def main(argv=None):
     seed = abs(seed) % (2 ** 40)
     try:
         rc = core.run_check(a.prop.upper(), tier, seed, a.replay)
+    except BrokenPipeError:  # the reader of our stdout went away; the verdict is in the evidence file
+        try:
+            sys.stdout = open(os.devnull, "w")
+        except OSError:
+            pass
+        return 1 if core.LAST_VERDICT.get("violations") else 0
     except core.HarnessError as e:
         print(f"HARNESS-ERROR property={a.prop}: {e}", file=sys.stderr)
         return 2
